@@ -16,9 +16,9 @@ import (
 // C01: Newick write/parse round trip.
 
 var c01Floats = []float64{1, 0, math.Copysign(0, -1), 0.1 + 0.2, 1e-7, 1e21, 5e-324, 1.7976931348623157e308, 123456789.12345679, -2.5, 0.000001, 1e-300}
-var c01TipNames = []string{"1", "1e5", "a b", "é", "-0.5", "TREE", "x/y", "0x1p-2", "Inf", "a'b", "1/2", "1 b", "a 1", "1 2"}
+var c01TipNames = []string{"1", "1e5", "a b", "é", "-0.5", "TREE", "x/y", "0x1p-2", "Inf", "a'b", "1/2", "1 b", "a 1", "1 2", "'Akepa", "'I'iwi", "O'"}
 var c01InnerNames = []string{"n", "in ner", "'q d'", "BEGIN", "é1", "1x", "a/b", "1/x", "x 1", "2009/H1N1"}
-var c01Comments = [][]string{{"c"}, {""}, {"a b"}, {"x;y"}, {"(:,"}, {"&k={a,b}"}, {"c1", "c2"}, {"c1", "c2", "c3"}, {"["}, {" lead"}, {"1.5"}, {"0.99 "}, {" 1"}, {"a 1 ,b"}, {"&hpd=(0.25 , 0.75 )"}, {"1 2"}, {"trail "}, {"  two"}, {"\ttab"}, {"a,  b"}, {"x(\t y"}, {"l1\nl2"}}
+var c01Comments = [][]string{{"c"}, {""}, {"a b"}, {"x;y"}, {"(:,"}, {"&k={a,b}"}, {"c1", "c2"}, {"c1", "c2", "c3"}, {"["}, {" lead"}, {"1.5"}, {"0.99 "}, {" 1"}, {"a 1 ,b"}, {"&hpd=(0.25 , 0.75 )"}, {"1 2"}, {"trail "}, {"  two"}, {"\ttab"}, {"a,  b"}, {"x(\t y"}, {"l1\nl2"}, {"&note:'87 isolate"}, {"x,'y"}, {"'"}}
 
 type c01slot struct {
 	n     int // menu size incl. default 0
@@ -141,6 +141,43 @@ func c01check(m *rm.Tree, variant int) (string, string) {
 		}
 		if w2 := t2.Newick(); w2 != w1 {
 			key, what = "C01/rewrite", fmt.Sprintf("second write %q differs from first write %q", w2, w1)
+			return
+		}
+		// a tree with a history: written, edited through the public setters, written again -
+		// the second text describes the tree as it is now
+		for step := 0; step < 2; step++ {
+			if step == 0 {
+				if tips := t2.Tips(); len(tips) > 0 {
+					tips[len(tips)-1].SetName("zz9")
+				}
+				if es := t2.Edges(); len(es) > 0 {
+					es[0].SetLength(2.5)
+					for _, e := range es {
+						if !e.Right().Tip() && e.Right().Name() == "" { // a support is written in the label slot of the unnamed inner node below the branch
+							e.SetSupport(0.25)
+							break
+						}
+					}
+				}
+			} else {
+				t2.ScaleLengths(2, true, true)
+				t2.ClearSupports()
+			}
+			o2, err := observe(t2)
+			if err != nil {
+				key, what = "C01/history/malformed", err.Error()
+				return
+			}
+			w3 := t2.Newick()
+			m3, err := rm.ParseNewick(w3)
+			if err != nil {
+				key, what = "C01/history/unreadable", fmt.Sprintf("text %q written after an edit is not readable: %v", w3, err)
+				return
+			}
+			if d := sameModel(o2, m3, true); d != "" {
+				key, what = "C01/history/"+strings.Fields(d)[1], fmt.Sprintf("tree first written as %q, then edited through setters (step %d): the text written now, %q, differs from the tree in memory: %s", w1, step, w3, d)
+				return
+			}
 		}
 	})
 	if crashed(r) {
